@@ -376,7 +376,7 @@ def load_findings(pid):
     """Entries of kind "finding" for the property, from known_findings.json and
     known_findings/<pid>.json (both committed, never written at run time)."""
     ents = []
-    for path in (os.path.join(ROOT, 'known_findings.json'), os.path.join(ROOT, 'known_findings', pid + '.json')):
+    for path in (os.path.join(ROOT, 'known_findings', pid + '.json'), os.path.join(ROOT, 'known_findings.json')):
         try:
             d = json.load(open(path))
         except OSError:
